@@ -170,7 +170,7 @@ void decodeCase(Tape &t, bool thorough, Case &k) {
   o.maxLevels = 6;
   if (stage == kGlobal) {
     o.globalDomain = true;
-    o.anchorPct = 100;
+    o.anchorPct = 70;
     o.overfull = false;
   }
   CircuitSpec s = genCircuit(t, o);
@@ -305,7 +305,7 @@ bool prop(Tape &t, Report &R) {
   o.maxLevels = 6;
   if (stage == kGlobal) {
     o.globalDomain = true;
-    o.anchorPct = 100;
+    o.anchorPct = 70;
     o.overfull = false;
   }
   CircuitSpec s = genCircuit(t, o);
@@ -323,8 +323,20 @@ bool prop(Tape &t, Report &R) {
     return true;
   }
   if (stage == kGlobal && !unanchoredComponents(s).empty()) {
-    R.exclude("c06-unanchored-far-from-origin");
-    return true;
+    // only the class of the recorded finding is left out (as in C07): a component without a fixed
+    // pin AND an area more than ~1000 average cell lengths from the origin.  Cells on no net close
+    // to the origin are ordinary inputs (spare cells, fillers).
+    long long far = 0;
+    for (auto &r : s.rows) far = std::max<long long>({far, std::llabs((long long)r.minX), std::llabs((long long)r.maxX), std::llabs((long long)r.minY), std::llabs((long long)r.maxY)});
+    double tot = 0;
+    for (auto &c : s.cells)
+      if (!c.fixed) tot += (double)c.w * c.h;
+    double avg = std::sqrt(tot / std::max<size_t>(1, s.cells.size()));
+    if (avg <= 0 || far / avg > 1e3) {
+      R.exclude("c06-unanchored-far-from-origin");
+      return true;
+    }
+    R.classify("component:unanchored-near-origin");
   }
   Circuit base = s.build();
   long pairs0 = gSched.pairs, enforced0 = gSched.enforced, firstOk0 = gSched.firstOk, gaveUp0 = gSched.gaveUp;
